@@ -21,6 +21,11 @@ def _query(op, q, m, dtype):
         return op.root_decomposition(method=meth).root
     if q == "root_inv_decomposition":
         return op.root_inv_decomposition(method=meth).root
+    if q == "root_after_inv_vecs1":
+        # the Lanczos inverse root from ONE supplied start vector stores its by-product as the operator's root decomposition
+        v = torch.randn(*op.shape[:-1], 1, dtype=op.dtype)
+        op.root_inv_decomposition(initial_vectors=v, method="lanczos")
+        return op.root_decomposition().root
     if q == "eigh":
         return op.eigh()
     if q == "linalg_eigh":
